@@ -1,11 +1,13 @@
 import Oracle.Proto
 import Oracle.ActorSys
+import Oracle.ShutdownRegistry
 /-! Oracle suites of property C05 (the Layer-2 actor-system model is shared by C03–C06). -/
 namespace Oracle.C05
 
 def suites : List (String × Suite) := [
   ("actorsys", Oracle.ActorSys.model),
-  ("actorsys-judge", Oracle.ActorSys.judgeC05)
+  ("actorsys-judge", Oracle.ActorSys.judgeC05),
+  ("shutdown-registry-judge", Oracle.ShutdownRegistry.judge)
 ]
 
 end Oracle.C05
